@@ -42,10 +42,11 @@ PROFILES = {
                 components=[b"d", b"ad", b"d-old", b"a+b", b"d(", b"x", b"lib", b"lib.go", b"f"], depths=[1, 2, 2, 3, 4, 4],
                 fd_conflicts=True),
     "C10": dict(tags={"refs", "HEAD", "exit", "output"},
-                names={"branch", "branch-list", "branch-rename", "branch-delete", "switch", "switch-c", "update-ref",
-                       "rev-parse", "commit", "reset"},
+                names={"branch", "branch-list", "branch-rename", "branch-delete", "branch-flags", "switch", "switch-c",
+                       "update-ref", "rev-parse", "commit", "reset"},
                 weights={"branch": 10, "branch-list": 4, "branch-rename": 5, "branch-delete": 6, "switch": 8,
-                         "switch-c": 6, "update-ref": 5, "rev-parse": 4, "commit": 8, "reset": 3, "edit": 12, "add": 10}),
+                         "switch-c": 6, "update-ref": 5, "rev-parse": 4, "commit": 8, "reset": 3, "edit": 12, "add": 10,
+                         "hostile": 6}),
     "C11": dict(tags={"logs/HEAD", "branch logs", "output", "exit"},
                 names={"reflog", "reset", "commit", "switch", "switch-c", "branch-rename", "branch-delete"},
                 weights={"reflog": 12, "commit": 14, "switch": 6, "switch-c": 4, "reset": 8, "branch-rename": 4,
@@ -68,13 +69,14 @@ for _p in ("C15", "C16", "C19"):
     PROFILES[_p] = dict(tags=ALL_TAGS, names=None, weights={})
 
 IGNORE_FILES = [b"out/\n", b"*.log\n", b"out/\n*.log\n", b"sub/\n", b"n.txt\n", b"src/out/\n*.txt\n",
-                b"out\n", b"sub\nlib.go\n", b"src\n", b"d e/\n*.log\n", b"k%s/\n", b"d e\n"]
+                b"out\n", b"sub\nlib.go\n", b"src\n", b"d e/\n*.log\n", b"k%s/\n", b"d e\n", b" d/\n", b"e /\n*.log\n"]
 # the path components an ignore file talks about: they join the history's vocabulary, otherwise most
 # histories would never create a path the patterns apply to
 IGNORE_WORDS = {b"out/\n": [b"out"], b"*.log\n": [b"a.log", b"a.logx"], b"out/\n*.log\n": [b"out", b"a.log"],
                 b"sub/\n": [b"sub"], b"n.txt\n": [b"n.txt"], b"src/out/\n*.txt\n": [b"src", b"out", b"n.txt"],
                 b"out\n": [b"out", b"src"], b"sub\nlib.go\n": [b"sub", b"lib.go", b"lib"], b"src\n": [b"src", b"a"],
-                b"d e/\n*.log\n": [b"d e", b"a.log"], b"k%s/\n": [b"k%s"], b"d e\n": [b"d e", b"d"]}
+                b"d e/\n*.log\n": [b"d e", b"a.log"], b"k%s/\n": [b"k%s"], b"d e\n": [b"d e", b"d"],
+                b" d/\n": [b" d", b"d"], b"e /\n*.log\n": [b"e ", b"a.log"]}
 
 
 def relevant(prop, step, diff):
